@@ -301,8 +301,6 @@ impl MultiState {
                 .as_ref()
                 .map(|d| d.visual_line_count(.., width))
                 .unwrap_or_default();
-            // Track the total number of zombie lines on the screen.
-            self.zombie_lines_count += line_count;
 
             // Track the number of zombie lines that will be drawn by this call to draw.
             adjust += line_count;
@@ -355,6 +353,8 @@ impl MultiState {
         if extra_lines.is_none() {
             self.draw_target
                 .adjust_last_line_count(LineAdjust::Keep(adjust));
+            // Track the total number of zombie lines on the screen.
+            self.zombie_lines_count += adjust;
         }
 
         drawable
